@@ -11,12 +11,24 @@ CHECKS = {
  "C02": dict(cat="fault_enumeration", tech="exhaustive crash-point enumeration: every prefix of every base archive is repaired by the real code and checked against the original files",
     text="For ~460 base archives built by the real writer (single pieces over a whole period of chunk+tag so every final-chunk length occurs, 9 structurally rich interleaved programs) x 4 layer combinations x brotli levels x both repair modes, EVERY prefix length 0..len is given to the real repair; its output is re-opened with the normal reader and checked: no panic/hang, error only while the header is incomplete, each file a prefix of the original, files not reported unfinished identical, end-of-data status only when complete. Production-constant tier: every length in windows around header end, chunk edges, tag starts, end.",
     note="Scaled constants via cfg(mla_verif) for the exhaustive part; production tier is windowed; encrypted bases use fresh random keys (verdict depends on plaintext only).", ref="3/C02"),
+ "C03": dict(cat="fault_enumeration", tech="exhaustive single-fault enumeration (every bit, every byte value 00/FF, every cut, every chunk rearrangement) against the real reader under all read orders",
+    text="Encrypted archives (encrypt, encrypt+compress; 3 interleaved files, >=5 chunks) from the real writer; every single-bit flip of every byte, every byte set to 00/FF, every truncation, all chunk swaps / duplications / deletions / replacements (same archive and a sibling with another key), header field edits; each mutant opened with the real ArchiveReader and every file read (all 6 file orders for chunk edits, rotating order otherwise; 7-byte and 4 KiB reads). Oracle: every Ok(n) read equals the original bytes at that position, no foreign name, unaltered archive reads back fully.",
+    note="Scaled constants. Panics are counted here and judged by C08. Tag forgery assumed infeasible.", ref="3/C03"),
  "C04": dict(cat="fault_enumeration", tech="exhaustive fault placement (bit flips / cuts in every chunk) on archives with adversarial content, independent AES-GCM + brotli reference for the authenticated prefix",
     text="Encrypted archives (real writer) whose file contents carry a well-formed block sequence at the start of every encryption chunk; for every chunk index: bit flips in payload and tag bytes and a cut at every offset of the chunk; the real repair runs in both modes. Oracle: authenticated output has original names only, each file a prefix of the original, nothing beyond what independent decoders (aes-gcm crate, brotli streaming API, own block parser) extract from the chunks before the first failing one, and is a prefix of the unauthenticated output.",
     note="Scaled constants. Known finding (not repairable with the suite unedited): chunk 0 is emitted unauthenticated - faults located in chunk 0 are reported as KNOWN-FINDING. Adversarial continuation through brotli is not constructed.", ref="3/C04"),
  "C05": dict(cat="fault_enumeration", tech="exhaustive crash-point enumeration with monotonicity and reference-layout lower-bound oracles",
     text="The prefix sweep of C02 evaluated with: undamaged archive fully recovered with status EndOfOriginalArchiveData; r(n) <= r(n+1) for every adjacent pair of prefix lengths (implies all pairs); without compression, recovered bytes >= bytes present in the usable part of the stream computed from an independent block-stream layout (complete chunks only in authenticated mode). Plus ~6000 undamaged archives (all single-piece sizes x 3 entropies x levels, interleavings, program tree, many small entries) repaired at full length.",
     note="Scaled constants; production tier: windows plus a few undamaged archives of 4 MiB +- 1.", ref="3/C05"),
+ "C09": dict(cat="model_checking", tech="complete call-sequence tree (valid and invalid calls) on the real writer in lock-step with a reference model with refusal rules; no state merging",
+    text="All sequences of writer calls up to depth 3 (thorough 4) over start/append/end/add/flush/finalize with names {fresh, duplicate, empty, 65536, 65537 bytes}, ids {open, ended, never issued}, sizes {0,3}, sources {exact, short, long} (plus depth 6/8 over a reduced alphabet); every prefix is a case. Each call's Ok/Err is compared with the model; the sequence is then closed and the archive read back with the real reader and an independent block parser: it must equal the model in which refused calls are no-ops. A short source must never return Ok.",
+    note="flush is treated as always accepted. Layers none (full depth) and both (depth-1).", ref="3/C09"),
+ "C10": dict(cat="model_checking", tech="complete reader-history tree on one real ArchiveReader against files read alone",
+    text="For 12 subject archives (3 interleaved programs x 4 layer combos) every history of exactly 5 (thorough 6) operations over {list, open(f) x3 dropping the previous file object midway, read(k) k in {0,1,3,7,64,1000}, hash(f) x3} is executed on a single reader; at every step listing, size, hash and bytes since the last open must equal the file read alone on a fresh reader; 0-length read only at end of file. No pruning.",
+    note="Scaled constants so that files span several chunks and blocks.", ref="3/C10"),
+ "C11": dict(cat="model_checking", tech="lock-step comparison with std::io::Cursor for every stream length and every seek target; complete boundary-history tree",
+    text="Layer stacks built as mlar info builds them (raw with offset 0/5, +encrypt, +compress, +both) over streams from the real layer writers and an independent AES-GCM chunk encoder (plus the encryption layer of real archives); for EVERY plaintext length 0..296 and EVERY target in [0,len]: seek from start / end / current, stream_position, then read to end, compared step by step with a Cursor; plus the complete depth-2 (thorough 3) tree over boundary targets, read sizes and stream_position for 18 boundary lengths.",
+    note="Only targets inside [0,len]; short reads accepted. Scaled constants.", ref="3/C11"),
  "C14": dict(cat="fault_enumeration", tech="crash-point enumeration at flush boundaries over all programs of a bounded tree",
     text="Every program of a bounded family with a flush() inserted at every position (pairs in thorough) x 4 layer combos x levels {0,5,11} x 3 entropies is run on the real writer over a sink that records its length when flush returns; exactly those bytes are repaired (both modes when encrypted). Oracle: output sound and every file has at least the bytes appended before the flush (or, authenticated mode, at least what independent reference decoders extract from completed chunks).",
     note="Scaled constants; reference compressed stream for layers=both/authenticated comes from the compress-only run of the same program.", ref="3/C14"),
